@@ -31,6 +31,9 @@ def gen_e2e(ctx):
             for codes in ((331, 230), (331, 530), (230, 0), (530, 0), (332, 0)):
                 for pbsz, prot in ((200, 200), (500, 200), (200, 534)):
                     yield eline(c, [con(user=None), login(codes=codes, pbsz=pbsz, prot=prot, tls=tls), noop])
+            # a 120 first, then every class of greeting: AUTH TLS / USER only after a greeting that is not negative
+            for g in (220, 230, 421, 500, 530):
+                yield eline(c, [con(greeting=g, pre120=True)] + ([] if g == 421 else [noop]))
     ctx["scopes"].append("TLS 1.2/1.3 and plain sessions over real sockets: login/logout/login, second login, 421 then connect with and without disconnect, login x 5 code patterns x PBSZ/PROT refusals")
 
 PROP = {"id": "C10", "stages": [{"name": "client", "target": "h_client", "gen": gen_c10, "shard": 12},
